@@ -228,6 +228,7 @@ func (t *TriDense) SetRawTriangular(mat blas64.Triangular) {
 func (t *TriDense) Reset() {
 	// N and Stride must be zeroed in unison.
 	t.mat.N, t.mat.Stride = 0, 0
+	t.cap = 0
 	// Defensively zero Uplo to ensure
 	// it is set correctly later.
 	t.mat.Uplo = 0
